@@ -76,6 +76,8 @@ ASSUMPTIONS = [
     'judged like values of 1); the reference\'s constant-pattern test is relative too',
     'scaled data: a correct evaluation may err by a small multiple of 1e-16 times the magnitude of '
     'the terms it sums (ref.magnitude); allowed 1e-9*|value| + 1e-12*magnitude',
+    'dataset-descriptor menus: a key the source dataset lacks may come back as None or be absent; any '
+    'other value (in particular that of another dataset) is a violation',
     'unbalanced=True movies: only the stacking is judged (each frame == calc_rdm_unbalanced of the data '
     'at that time point); the unbalanced estimator itself belongs to another property',
     'a dict of precisions is only passed where it works as a per-dataset container (keyed by the '
@@ -99,6 +101,10 @@ BOUNDS = {
               'tierA': '{0,1,2}^(n x P): (2,1..3) (3,1..2) (4,1), every partition, 6 method configurations',
               'movie': {'n_time': [1, 3], 'n_obs': [1, 3], 'n_channel': [1, 2, 3],
                         'binnings': 'none + every partition of the time points, both bin orders'},
+              'dataset_descriptor_menus': 'lists of 2-3 datasets x 11 / 7 menus of dataset-level descriptor dicts '
+                                          '(same keys, key missing first / middle / last, disjoint keys, mixed '
+                                          'types, empty) x calc_rdm with / without descriptor, calc_rdm_movie, '
+                                          'unbalanced movie; RDMs identified by their values',
               'extreme_scales': 'measurements x1e-9, x1e-12, x1e8 (euclidean, correlation, mahalanobis; poisson '
                                 'only at 1e8) through the same oracle, purely relative tolerance; homogeneity '
                                 'law calc_rdm(c*data) == c^2 (c^0 for correlation) * calc_rdm(data) for the '
